@@ -1,0 +1,9 @@
+//go:build !verif
+
+package filesystem
+
+// verifFault is a verification hook point (see verif_fault_on.go). Without the
+// verif build tag it is an empty, inlinable function.
+func verifFault(operation, name string) error {
+	return nil
+}
